@@ -118,6 +118,10 @@ impl GseDecapMemory for SimpleGseMemory {
 
     fn new_frag(&mut self, context: DecapContext) -> Result<MemoryContext, DecapMemoryError> {
         let frag_id = context.frag_id;
+        // a memory without any slot cannot hold a fragmented pdu
+        if self.max_frag_id == 0 {
+            return Err(DecapMemoryError::StorageUnderflow);
+        }
         let idx = frag_id as usize % self.max_frag_id;
 
         let mut frag: Option<MemoryContext> = None;
@@ -133,6 +137,10 @@ impl GseDecapMemory for SimpleGseMemory {
     }
 
     fn take_frag(&mut self, frag_id: u8) -> Result<MemoryContext, DecapMemoryError> {
+        // a memory without any slot does not hold any frag id
+        if self.max_frag_id == 0 {
+            return Err(DecapMemoryError::UndefinedId);
+        }
         let idx = frag_id as usize % self.max_frag_id;
 
         let mut frag: Option<MemoryContext> = None;
@@ -154,6 +162,10 @@ impl GseDecapMemory for SimpleGseMemory {
 
     fn save_frag(&mut self, context: MemoryContext) -> Result<(), DecapMemoryError> {
         let (decap_context, pdu) = context;
+        // a memory without any slot cannot save a context
+        if self.max_frag_id == 0 {
+            return Err(DecapMemoryError::MemoryCorrupted);
+        }
         let idx = decap_context.frag_id as usize % self.max_frag_id;
 
         match self.frags[idx] {
